@@ -898,13 +898,19 @@ def _native_locate(et, how, seed, S=1.0):
     v1 = np.array([np.asarray(mesh.Evaluate_dofsValues_at_coordinates(p[None], u)).ravel()[0] for p in q[:6]])
     pair = np.asarray(mesh.Evaluate_dofsValues_at_coordinates(q[:2], u)).ravel()
     err = max(np.abs(v - want).max(), np.abs(v1 - want[:6]).max(), np.abs(pair - want[:2]).max()) / scale
+    # the optional list of candidate elements, in any order (the whole mesh listed backwards / shuffled): same values
+    for tag, elems in (("reversed", np.arange(g.Ne)[::-1].copy()), ("shuffled", rng.permutation(g.Ne))):
+        ve = np.asarray(mesh.Evaluate_dofsValues_at_coordinates(q, u, elems)).ravel()
+        ee = float(np.abs(ve - want).max() / scale)
+        if ee > max(err, 1e-6):
+            return dict(err=ee, missing=int((ve == 0).sum()), order=order, nq=len(q), elements=tag)
     return dict(err=float(err), missing=int((v == 0).sum() + (v1 == 0).sum()), order=order, nq=len(q))
 
 
 def ob_locate(et, how, seed, S=1.0):
     r = _native_locate(et, how, seed, S)
     if r["missing"] or r["err"] > 1e-6:
-        raise Refuted(f"{et} ({how}{'' if S == 1.0 else f', coordinates multiplied by {S:g}'}): evaluating a degree-{r['order']} polynomial nodal field at {r['nq']} located points (interior, edge midpoints, nodes; batch, pairs and single queries): "
+        raise Refuted(f"{et} ({how}{'' if S == 1.0 else f', coordinates multiplied by {S:g}'}{', candidate elements listed ' + r['elements'] if r.get('elements') else ''}): evaluating a degree-{r['order']} polynomial nodal field at {r['nq']} located points (interior, edge midpoints, nodes; batch, pairs and single queries): "
                       f"relative error {r['err']:.3e}, {r['missing']} points not located", cex=dict(elemType=et, motion=how, seed=seed), signature=f"locate:{et}:{how}",
                       replay=dict(confirmed=True, **r))
     return Verdict(DISCHARGED, backend="native gmsh mesh", detail=f"err {r['err']:.1e}")
